@@ -403,6 +403,7 @@ class Exec:
             if not fields: raise OutOfReach('loop-carried heap object without obj_havoc_fields in the contract')
             cur = self._cur_state.heap[v.t]
             return new_obj(self._cur_state, v.get('cls'), **{f: self.fresh_like(cur[f], f) for f in fields})
+        if z3.is_expr(v.t): return V(k, self.fresh(v.t.sort(), name), **v.x)      # a contract-defined kind over one z3 term
         raise OutOfReach(f'cannot havoc a value of kind {k}')
 
     def need(self, st, goal, name, kind='check', line=None, witness=None):
@@ -1161,6 +1162,18 @@ class Exec:
         if not self.dry: self.returns.append((st, v, n.lineno))
         return []
 
+    def s_Try(self, n, st):
+        """try: <one statement> except ...: <handler>.  The body path is followed as usual (its callees are assumed not to raise unless their
+        contract says so: A-exc); every handler is ALSO followed from the state at the entry of the try statement (the single body statement had no
+        effect when it raised).  Bodies of several statements, else and finally parts are out of reach."""
+        if len(n.body) != 1 or n.orelse or n.finalbody: raise OutOfReach(f'try statement of this shape (line {n.lineno})')
+        outs = self.block(n.body, st.fork())
+        for h in n.handlers:
+            hs = st.fork()
+            if h.name: hs.vars[h.name] = V('exc', 'caught')
+            outs += self.block(h.body, hs)
+        return outs
+
     def s_Raise(self, n, st):
         x = self.ev(n.exc, st) if n.exc else V('exc', 'reraise')
         if not self.dry: self.raises.append((st, x, n.lineno))
@@ -1465,7 +1478,9 @@ class Exec:
         body_runner(self.havoc(st, names, attrs, kinds))
         e = self.havoc(st, names, attrs, kinds)
         e.pc.append(self.inv(k, e, assume=True))
-        e.pc.append(z3.Not(truthy(self.ev(n.test, e))))
+        c_exit = z3.Not(truthy(self.ev(n.test, e)))
+        if z3.is_false(z3.simplify(c_exit)): return breaks          # `while True:` is only left through break
+        e.pc.append(c_exit)
         return [e] + breaks
 
 
